@@ -27,7 +27,7 @@ import (
 
 func init() {
 	mon.RegisterCfg("C08", mon.Config{
-		Rule: "generated gtab.Info / gdef.Table / coverage / classdef values (gen/otl: every encodable lookup type and format, alphabets of 5 … 65536 glyphs, subtables of a few bytes … 58 KiB, lookup lists of 0 … 300 lookups and up to several 100 KiB with the largest lookup first / in the middle / last, totals swept +-8 bytes around the 16-bit offset limits, script lists over every script x language tag of the library's tables, feature lists up to the 16-bit limit) are encoded by the library, decoded again and compared (nil = empty); the emitted bytes are walked by the independent structural walker otlwalk (offsets inside the table, extents as implied by counts, ranges tile the table without gap or partial overlap, extension records consistent, coverage sorted with indices 0..n-1, no smaller alternative format); every subtable's declared size is compared with its emitted size (hook); coverage/classdef are additionally decoded by otlwalk and their sizes recomputed independently; a catalogue of unrepresentable structures must be refused with a panic or read back equal. distinct = distinct emitted tables (hash); stratum ximage-kern: a whole font is written whose kern feature consists of pair adjustment subtables of both formats (plus decoy lookups/features/scripts, lists beyond 64 KiB through extension records) and golang.org/x/image/font/sfnt - an independent reader of script list, feature list, lookup list, extension records, coverage and class definition tables - must find, for every sampled glyph pair, the kerning the structure holds",
+		Rule: "generated gtab.Info / gdef.Table / coverage / classdef values (gen/otl: every encodable lookup type and format, alphabets of 5 … 65536 glyphs, subtables of a few bytes … 58 KiB, lookup lists of 0 … 300 lookups and up to several 100 KiB with the largest lookup first / in the middle / last, totals swept +-8 bytes around the 16-bit offset limits, script lists over every script x language tag of the library's tables, feature lists up to the 16-bit limit) are encoded by the library, decoded again and compared (nil = empty); the emitted bytes are walked by the independent structural walker otlwalk (offsets inside the table, extents as implied by counts, ranges tile the table without gap or partial overlap, extension records consistent, coverage sorted with indices 0..n-1, no smaller alternative format); every subtable's declared size is compared with its emitted size (hook); coverage/classdef are additionally decoded by otlwalk and their sizes recomputed independently; a catalogue of unrepresentable structures must be refused with a panic or read back equal; further strata: counts (one record - replacement sequence, alternate set, ligature component list, ligature set, rule input / backtrack / lookahead sequence, action list, rule set, coverage array - with 256 … 2000 entries, and with more than 32767 entries under the catalogue rule; 13 … 1800 mark classes), rule-set (one rule set whose last rule starts at 62 KiB … 64 KiB + 24), value records that consist of YAdvance or of device offsets alone or have all eight fields set (also as the only record shape of a subtable), classdef tables whose glyph span is 0xFFFD … 0x10000 and tables with explicit class-0 entries (the emitted format must be the one that holds the mapping in fewer bytes), gdef-shapes (glyph class values beyond 4, 100 … 1500 mark glyph sets, sets of up to 65536 glyphs with set offsets beyond 64 KiB, sub-table offsets swept +-8 around 64 KiB), scripts (more than 100 scripts, scripts without a default language system, one script with hundreds of language systems, script list + feature list ending +-8 around 64 KiB). distinct = distinct emitted tables (hash); stratum ximage-kern: a whole font is written whose kern feature consists of pair adjustment subtables of both formats (plus decoy lookups/features/scripts, lists beyond 64 KiB through extension records) and golang.org/x/image/font/sfnt - an independent reader of script list, feature list, lookup list, extension records, coverage and class definition tables - must find, for every sampled glyph pair (glyph 0 and the last glyph of the font always among them), the kerning the structure holds; the class definition tables of a third of the class subtables are dense blocks (format 1), of another third long runs (format 2)",
 		Assumptions: []string{
 			"well-formed content = what the binary format can express (uniform nil-ness of value records per subtable position, one array entry per covered glyph, rule-set arrays not longer than the class count, mark classes below the class count, MarkFilteringSet 0 unless flagged, anchors (0,0) = absent); GPOS type 5 has no encoder and is excluded",
 			"value-record device offsets are opaque 16-bit fields for the library; otlwalk does not follow them",
@@ -431,7 +431,10 @@ func runC08(c *mon.Ctx) {
 		if !c.Thorough() && sz == otl.Huge && r.IntN(2) == 0 {
 			sz = otl.Large
 		}
-		o := otl.Opts{MaxGID: c08maxGIDs[r.IntN(len(c08maxGIDs))], Size: sz, NumLookups: 1 + r.IntN(4), DevOffs: r.IntN(8) == 0}
+		o := otl.Opts{MaxGID: c08maxGIDs[r.IntN(len(c08maxGIDs))], Size: sz, NumLookups: 1 + r.IntN(4), DevOffs: r.IntN(8) == 0, RichVR: true}
+		if cb.tt == otl.GPOS && cb.lt <= 2 {
+			o.DevOffs = r.IntN(3) == 0
+		}
 		name := otl.Name(cb.tt, cb.lt, cb.f)
 		s := otl.Subtable(r, cb.tt, cb.lt, cb.f, o)
 		info := c08wrap(r, cb.tt, cb.lt, s)
@@ -442,6 +445,7 @@ func runC08(c *mon.Ctx) {
 			k.Class("size:" + c08sizeNames[sz])
 			k.Class(fmt.Sprintf("maxgid:%d", o.MaxGID))
 			k.Max("subtable-bytes", float64(len(out.enc)))
+			c08vrClasses(k, info.LookupList)
 		}
 		k.Sample(fmt.Sprintf("%s size=%s maxGID=%d -> %d bytes", name, c08sizeNames[sz], o.MaxGID, len(out.enc)))
 	})
@@ -461,7 +465,7 @@ func runC08(c *mon.Ctx) {
 		default:
 			n = 101 + r.IntN(200) // … 300
 		}
-		o := otl.Opts{MaxGID: c08maxGIDs[1+r.IntN(4)], NumLookups: n, Size: otl.Any, MaxSubs: 4}
+		o := otl.Opts{MaxGID: c08maxGIDs[1+r.IntN(4)], NumLookups: n, Size: otl.Any, MaxSubs: 4, RichVR: true, DevOffs: r.IntN(4) == 0}
 		if n > 12 {
 			o.Size = otl.Small
 			if r.IntN(4) == 0 {
@@ -849,6 +853,13 @@ func runC08(c *mon.Ctx) {
 		r := k.Rng
 		cd := c08classDef(r, k.Index+k.Index/16)
 		f1, f2 := otlwalk.ClassDefSizes(c08cd16(cd))
+		nZeros := 0
+		for _, cls := range cd {
+			if cls == 0 {
+				nZeros++
+			}
+		}
+		zeros := nZeros > 0
 		k.Step(fmt.Sprintf("classdef %d glyphs", len(cd)))
 		if f1 < 0 && f2 < 0 {
 			k.Skip("classdef-unrepresentable")
@@ -887,10 +898,32 @@ func runC08(c *mon.Ctx) {
 			if d := c08classDiff(cd, c08toTable(dec.Class)); d != "" {
 				k.Fail("mismatch", "c08:classdef:content", "independent decoder reads a different mapping: %s", d)
 			}
-			if len(enc) > best {
+			switch {
+			case len(enc) <= best:
+			case !zeros:
 				k.Fail("mismatch", "c08:classdef:format-not-smallest", "format %d with %d bytes was emitted; format 1 needs %d, format 2 needs %d", dec.Format, len(enc), f1, f2)
+			default:
+				// Entries with class 0 say what absence says.  The property
+				// speaks about the choice between the two formats: the format
+				// that was emitted must be the one that can hold the mapping in
+				// fewer bytes; padding inside that format is only recorded.
+				mine, other := f1, f2
+				if dec.Format == 2 {
+					mine, other = f2, f1
+				}
+				if other >= 0 && (mine < 0 || other < mine) {
+					k.Fail("mismatch", "c08:classdef:explicit-class-0:larger-format-chosen", "a table with explicit class-0 entries was written in format %d (%d bytes emitted, %d needed); format %d holds the same mapping in %d bytes; entries: %d, of which class 0: %d", dec.Format, len(enc), mine, 3-dec.Format, other, len(cd), nZeros)
+				} else {
+					k.Class("classdef:explicit-class-0:padded-within-the-smaller-format")
+				}
+			}
+			if zeros {
+				k.Class("classdef:explicit-class-0")
 			}
 			k.Class(fmt.Sprintf("classdef:format%d", dec.Format))
+			if span := c08classSpan(cd); span >= 0xFFFD {
+				k.Class(fmt.Sprintf("classdef:span-%#x:format%d", span, dec.Format))
+			}
 			if f1 == f2 {
 				k.Class("classdef:tie")
 			} else if f1 >= 0 && f2 >= 0 && (f1-f2 == 2 || f2-f1 == 2 || f1-f2 == 4 || f2-f1 == 4) {
@@ -920,6 +953,9 @@ func runC08(c *mon.Ctx) {
 		if len(cd) == 0 {
 			k.Class("classdef:empty")
 		}
+		if zeros && nZeros == len(cd) {
+			k.Class("classdef:only-class-0-entries")
+		}
 	})
 
 	// --- GDEF -----------------------------------------------------------------
@@ -933,27 +969,9 @@ func runC08(c *mon.Ctx) {
 				t.GlyphClass[g] = uint16(1 + r.IntN(4))
 			}
 		}
-		k.Step("gdef encode")
-		var enc []byte
-		if k.Guard("gdef.Table.Encode", func() { enc = t.Encode() }) {
+		enc, ok := c08gdefJudge(k, t)
+		if !ok {
 			return
-		}
-		k.Input(enc)
-		k.Eval()
-		var back *gdef.Table
-		var err error
-		if k.Guard("gdef.Read", func() { back, err = gdef.Read(bytes.NewReader(enc)) }) {
-			return
-		}
-		if err != nil {
-			k.Fail("mismatch", "c08:gdef:read-error", "gdef.Read: %v", err)
-		} else if d := c08diff(t, back); d != "" {
-			k.Fail("mismatch", "c08:gdef:roundtrip", "gdef.Read(Encode(t)) != t at %s", d)
-		}
-		rep, g := otlwalk.WalkGDEF(enc)
-		c08walkJudge(k, "gdef", rep)
-		if rep.OK() {
-			c08gdefAgainst(k, t, g)
 		}
 		k.DistinctBytes(enc)
 		cls := "gdef:"
@@ -1057,6 +1075,7 @@ func runC08(c *mon.Ctx) {
 	})
 
 	c08ximageStratum(c)
+	c08shapeStrata(c, scriptTags, langTags)
 
 	// --- feature lists up to the 16-bit limit --------------------------------------
 	c.Stratum("features", c.N(40, 800), func(k *mon.Case) {
@@ -1121,7 +1140,10 @@ func runC08(c *mon.Ctx) {
 		"walk:cov1", "walk:cov2", "walk:classdef1", "walk:classdef2", "walk:ext",
 		"cov:format1", "cov:format2", "cov:tie", "cov:has-gid-0", "cov:has-gid-ffff", "cov:full-range",
 		"classdef:format1", "classdef:format2", "classdef:tie", "classdef:has-gid-0", "classdef:has-gid-ffff",
-		"tags:script-complete", "gdef:111", "gdef:000"}
+		"classdef:span-0xffff:format1", "classdef:span-0xffff:format2", "classdef:span-0x10000:format2", "classdef:explicit-class-0",
+		"tags:script-complete", "gdef:111", "gdef:000",
+		"vr:record-yadvance-only", "vr:record-device-offsets-only", "vr:record-all-eight-fields",
+		"vr:subtable-format-yadvance-only", "vr:subtable-format-device-offsets-only"}
 	for _, cb := range combos {
 		req = append(req, "sub:"+otl.Name(cb.tt, cb.lt, cb.f), "ext-uniform:"+otl.Name(cb.tt, cb.lt, cb.f))
 	}
@@ -1308,7 +1330,87 @@ func c08runs(r *rand.Rand, k, n int) []glyph.ID {
 // 6+2s vs 4+6r), at the ends of the glyph range, dense and sparse.
 func c08classDef(r *rand.Rand, index int) classdef.Table {
 	cd := classdef.Table{}
-	switch index % 8 {
+	switch index % 10 {
+	case 8:
+		// the glyph span at the limit of format 1 (its glyph count is a
+		// 16-bit field): 0xFFFD … 0x10000 glyphs between the first and the
+		// last classified glyph
+		span := 0x10000 - r.IntN(4)
+		start := r.IntN(0x10000 - span + 1)
+		switch r.IntN(4) {
+		case 0: // dense, alternating classes: format 1 is much smaller where it is possible
+			for i := 0; i < span; i++ {
+				cd[glyph.ID(start+i)] = uint16(1 + i%2)
+			}
+		case 1: // dense with a few holes (class 0 inside the span)
+			for i := 0; i < span; i++ {
+				if i == 0 || i == span-1 || r.IntN(50) != 0 {
+					cd[glyph.ID(start+i)] = uint16(1 + i%3)
+				}
+			}
+		case 2: // both ends and little in between: format 2 is tiny
+			cd[glyph.ID(start)] = uint16(1 + r.IntN(3))
+			cd[glyph.ID(start+span-1)] = uint16(1 + r.IntN(3))
+			for _, g := range otl.GIDs(r, r.IntN(30), 0xFFFF) {
+				if int(g) > start && int(g) < start+span-1 {
+					cd[g] = uint16(1 + r.IntN(4))
+				}
+			}
+		default: // runs of three: both formats need (nearly) the same number of bytes
+			cls := uint16(1)
+			for i := 0; i < span; i++ {
+				if i%3 == 0 {
+					cls = cls%2 + 1
+				}
+				cd[glyph.ID(start+i)] = cls
+			}
+			// a few longer / shorter runs move the balance by some bytes
+			for j := r.IntN(4); j > 0; j-- {
+				i := 3 * r.IntN(span/3-1)
+				cd[glyph.ID(start+i+3)] = cd[glyph.ID(start+i)]
+			}
+		}
+		return cd
+	case 9:
+		// explicit class-0 entries: the same mapping as without them
+		cd = c08classDef(r, r.IntN(8))
+		if len(cd) > 3000 {
+			cd = classdef.Table{}
+			for _, g := range otl.GIDs(r, 1+r.IntN(12), []int{40, 0xFFFF}[r.IntN(2)]) {
+				cd[g] = uint16(1 + r.IntN(3))
+			}
+		}
+		lo, hi := 0xFFFF, 0
+		for _, g := range c08sortedKeys(cd) {
+			lo, hi = min(lo, int(g)), max(hi, int(g))
+		}
+		zero := func(g int) {
+			if g >= 0 && g <= 0xFFFF {
+				if _, used := cd[glyph.ID(g)]; !used {
+					cd[glyph.ID(g)] = 0
+				}
+			}
+		}
+		if len(cd) == 0 {
+			lo, hi = 0x8000, 0x8000
+		}
+		for j := 1 + r.IntN(4); j > 0; j-- {
+			switch r.IntN(6) {
+			case 0:
+				zero(lo - 1 - r.IntN(3))
+			case 1:
+				zero(hi + 1 + r.IntN(3))
+			case 2:
+				zero(lo - 1 - r.IntN(lo+1)) // far below
+			case 3:
+				zero(hi + 1 + r.IntN(0x10000-hi)) // far above
+			case 4:
+				zero(lo + r.IntN(hi-lo+1)) // inside the span (a gap, if there is one)
+			default:
+				zero([]int{0, 0xFFFF}[r.IntN(2)])
+			}
+		}
+		return cd
 	case 0: // k runs within a span of 3k-1+delta
 		k := 1 + r.IntN(40)
 		if r.IntN(6) == 0 {
@@ -1400,6 +1502,36 @@ func c08classDef(r *rand.Rand, index int) classdef.Table {
 	return cd
 }
 
+func c08sortedKeys(cd classdef.Table) []glyph.ID {
+	keys := make([]glyph.ID, 0, len(cd))
+	for g := range cd {
+		keys = append(keys, g)
+	}
+	sort.Slice(keys, func(i, j int) bool { return keys[i] < keys[j] })
+	return keys
+}
+
+// c08classSpan is the number of glyph ids between the first and the last
+// glyph with a non-zero class (inclusive), 0 for an empty mapping.
+func c08classSpan(cd classdef.Table) int {
+	lo, hi := -1, -1
+	for g, c := range cd {
+		if c == 0 {
+			continue
+		}
+		if lo < 0 || int(g) < lo {
+			lo = int(g)
+		}
+		if int(g) > hi {
+			hi = int(g)
+		}
+	}
+	if lo < 0 {
+		return 0
+	}
+	return hi - lo + 1
+}
+
 func c08gdefAgainst(k *mon.Case, t *gdef.Table, g *otlwalk.GDEF) {
 	chk := func(name string, want classdef.Table, got *otlwalk.ClassDef) {
 		if (want != nil) != (got != nil) {
@@ -1425,6 +1557,34 @@ func c08gdefAgainst(k *mon.Case, t *gdef.Table, g *otlwalk.GDEF) {
 			k.Fail("mismatch", "c08:gdef:walk-content", "mark glyph set %d differs in the bytes", i)
 		}
 	}
+}
+
+// c08gdefJudge applies the oracles for a representable GDEF table: encode,
+// read back equal, structural walk, walker's view equal to the structure.
+func c08gdefJudge(k *mon.Case, t *gdef.Table) ([]byte, bool) {
+	k.Step("gdef encode")
+	var enc []byte
+	if k.Guard("gdef.Table.Encode", func() { enc = t.Encode() }) {
+		return nil, false
+	}
+	k.Input(enc)
+	k.Eval()
+	var back *gdef.Table
+	var err error
+	if k.Guard("gdef.Read", func() { back, err = gdef.Read(bytes.NewReader(enc)) }) {
+		return enc, false
+	}
+	if err != nil {
+		k.Fail("mismatch", "c08:gdef:read-error", "gdef.Read: %v", err)
+	} else if d := c08diff(t, back); d != "" {
+		k.Fail("mismatch", "c08:gdef:roundtrip", "gdef.Read(Encode(t)) != t at %s", d)
+	}
+	rep, g := otlwalk.WalkGDEF(enc)
+	c08walkJudge(k, "gdef", rep)
+	if rep.OK() {
+		c08gdefAgainst(k, t, g)
+	}
+	return enc, true
 }
 
 // c08tagFor asks the library's reader which language.Tag it uses for an
